@@ -145,6 +145,23 @@ def struct_mutants(r, base, quick):
         c2 = list(ch)
         c2[1] = (zckref.H(p.chunk_hash_type, bytes(body[p.chunks[1]["start"]:p.chunks[1]["start"] + ch[1][2]])), ch[1][1], ch[1][2], ch[1][3])
         add("chunk-body+digests", [1], body=bytes(body), chunks=c2, data_digest=None if not p.has_uncomp else p.data_digest)
+    # the same self-consistent alteration behind the ORIGINAL lead (old header checksum kept): only the header checksum can tell
+    if out and out[-1][0] == "reseal:chunk-body+digests":
+        alt = out[-1][2]
+        try:
+            q = zckref.parse(alt)
+            if q.lead_len == p.lead_len and q.header_len == p.header_len:
+                out.append(("oldlead:chunk-body+digests", [1], d[:p.lead_len] + alt[p.lead_len:]))
+        except zckref.Invalid:
+            pass
+    # the file ends inside its LAST chunk, declared sizes untouched, chunk and data checksums recomputed over the bytes that are there
+    if n >= 2 and ch[-1][2] > 2:
+        for cut in sorted(set([1, ch[-1][2] // 2, ch[-1][2] - 1])):
+            body = d[p.header_len:p.total_len - cut]
+            last = p.chunks[-1]
+            c2 = list(ch)
+            c2[-1] = (zckref.H(p.chunk_hash_type, bytes(body[last["start"]:])), ch[-1][1], ch[-1][2], ch[-1][3])
+            add("last-chunk-cut+digests", [cut], body=bytes(body), chunks=c2, data_digest=None if not p.has_uncomp else p.data_digest)
     add("sig-count-1", [], sig_count=1)
     add("header-tail", [], header_tail=b"\x00\x01\x02")
     return out
@@ -154,7 +171,7 @@ def worker(case):
     cdir = case["dir"]
     keep = False
     data = core.unb64(case["data"])
-    cid = core.h8([case["base"], case["mut"], case["desc"], case["sizes"]])
+    cid = core.h8([case["base"], case["mut"], case["desc"], case["sizes"], case.get("pinned")])
     stats = {"files": 1}
     try:
         try:
@@ -168,7 +185,23 @@ def worker(case):
             gate = True
         except zckref.Invalid:
             pass
-        rd = core.run_zh(case["zh"], cdir, gen.reader_script("f.zck", sizes=case["sizes"]), {"f.zck": data}, name="read")
+        pins = None
+        if case.get("pinned"):
+            # the caller pins exactly what the file's own lead says (type, stored checksum, total length): a reader that trusts
+            # the pin INSTEAD of recomputing the checksum would accept any header body behind an untouched lead
+            try:
+                ht, n1 = zckref.ci_decode(data, 5)
+                hs, n2 = zckref.ci_decode(data, 5 + n1)
+                ds = zckref.DIGEST_SIZE[ht]
+                dg = data[5 + n1 + n2:5 + n1 + n2 + ds]
+                if len(dg) == ds and len(data) >= 25:
+                    pins = (ht, dg.hex(), 5 + n1 + n2 + ds + hs)
+            except (zckref.Invalid, KeyError, IndexError):
+                pins = None
+            if pins is None:
+                return core.verdict(cid, "unsupported", stats=stats)
+            stats["pinned_opens"] = 1
+        rd = core.run_zh(case["zh"], cdir, gen.reader_script("f.zck", sizes=case["sizes"], pins=pins), {"f.zck": data}, name="read")
         if rd.timed_out and not rd.cpu_exceeded:
             return core.verdict(cid, "inconclusive", detail="watchdog", case=case)
         if rd.harness_error:
@@ -178,7 +211,7 @@ def worker(case):
         if cs:
             # memory safety is C03's business, but a crash inside the judged read is not "error or original content"
             viol.append((cs[0], "reader crashed: %s" % cs))
-        ir = rd.first(op="init_read")
+        ir = rd.first(op="init_read") if not pins else rd.first(op="read_header")
         reads = rd.ev(ev="read")
         cl = rd.first(op="close")
         ok = bool(ir and ir["rc"] == 1 and reads and all(e["rc"] >= 0 for e in reads) and reads[-1]["rc"] == 0 and cl and cl["rc"] == 1)
@@ -295,4 +328,7 @@ class C02(core.Check):
                     out.append({"base": b["name"], "mut": name, "desc": desc, "data": core.b64(data), "sizes": sizes, "zh": ctx["zh"],
                                 "orig": core.b64(b["content"]),
                                 "unzck": ctx["unzck"] if r.random() < (0.1 if self.quick else 0.05) else None})
+                    if name.startswith("oldlead:") or ((name.startswith(("bitflip:preface", "subst", "insert", "delete", "swap", "bitflip")) and not name.startswith("bitflip:lead")) and r.random() < 0.25):
+                        out.append({"base": b["name"], "mut": name, "desc": desc, "data": core.b64(data), "sizes": sizes, "zh": ctx["zh"],
+                                    "orig": core.b64(b["content"]), "unzck": None, "pinned": True})
         return out
